@@ -120,6 +120,7 @@ type SugarDB struct {
 	rewriteAOFInProgress       atomic.Bool      // Atomic boolean that's true when actively rewriting AOF file is in progress.
 	stateCopyInProgress        atomic.Bool      // Atomic boolean that's true when actively copying state for snapshotting or preamble generation.
 	stateMutationInProgress    atomic.Bool      // Atomic boolean that is set to true when state mutation is in progress.
+	restoreInProgress          atomic.Bool      // Atomic boolean that's true while the state is being restored from the append-only file.
 	latestSnapshotMilliseconds atomic.Int64     // Unix epoch in milliseconds.
 	snapshotEngine             *snapshot.Engine // Snapshot engine for standalone mode.
 	aofEngine                  *aof.Engine      // AOF engine for standalone mode.
@@ -377,7 +378,11 @@ func NewSugarDB(options ...func(sugarDB *SugarDB)) (*SugarDB, error) {
 		sugarDB.initialiseCaches()
 		// Restore from AOF by default if it's enabled
 		if sugarDB.config.RestoreAOF {
+			// While the log is replayed no key expires: an expiry time that lies in the past by now
+			// may still be replaced by a later command of the log.
+			sugarDB.restoreInProgress.Store(true)
 			err := sugarDB.aofEngine.Restore()
+			sugarDB.restoreInProgress.Store(false)
 			if err != nil {
 				log.Println(err)
 			}
